@@ -25,11 +25,13 @@ type c18Spec struct {
 	Format string `json:"format"` // yml | txt
 	Group  string `json:"group"`  // base | stage:<i> | part:<i> | invalid
 	Values int    `json:"values"` // values per parameter
-	Env    int    `json:"env,omitempty"` // configuration the pair of runs shares (4: the crop follows a three-stage catch crop): 0 defaults; 1 CO2 method 3 at 550 ppm with stomata influence; 2 CO2 method 1 at 700 ppm, Turc-Wendling ET; 3 small soil root depth, Haude ET, other N-mineralisation method
+	Env    int    `json:"env,omitempty"` // configuration the pair of runs shares (4: the crop follows a three-stage catch crop; 5: it follows a seven-stage crop): 0 defaults; 1 CO2 method 3 at 550 ppm with stomata influence; 2 CO2 method 1 at 700 ppm, Turc-Wendling ET; 3 small soil root depth, Haude ET, other N-mineralisation method
 }
 
 var c18StageParams = []string{"TSUM", "BAS", "VSCHWELL", "DAYL", "DLBAS", "DRYSWELL", "LUKRIT", "LAIFKT", "WGMAX", "KC"}
 var c18BaseParams = []string{"MAXAMAX", "MINTMP", "WUMAXPF", "VELOC", "YIFAK", "INITCONCNBIOM", "INITCONCNROOT"}
+
+func abbrOf(file string) string { return file[strings.LastIndex(file, ".")+1:] }
 
 func c18CropFiles() []string {
 	m, _ := filepath.Glob(filepath.Join(proj.RepoDir(), "examples", "parameter", "PARAM*.yml"))
@@ -63,6 +65,12 @@ func c18Specs(tier string, seed int) []c18Spec {
 			for s := 4; s <= 7; s++ {
 				if tier == "thorough" || (i+s)%2 == 0 {
 					out = append(out, c18Spec{File: f, Format: fm, Group: fmt.Sprintf("stage:%d", s), Values: vals, Env: 4})
+				}
+			}
+			// ... and after a crop with MORE stages (seven): slots beyond the named crop's stages hold that crop's values
+			for s := 1; s <= 6; s++ {
+				if tier == "thorough" || (i+s)%2 == 1 || abbrOf(f) == "ZR" {
+					out = append(out, c18Spec{File: f, Format: fm, Group: fmt.Sprintf("stage:%d", s), Values: vals, Env: 5})
 				}
 			}
 			for s := 1; s <= 10; s++ {
@@ -315,6 +323,9 @@ func c18Run(raw json.RawMessage, c *mc.Ctx) {
 	if sp.Env == 4 && abbrOfFile != "PH" {
 		// the named crop is not the first crop sown: a catch crop with only three development stages grows before it
 		p.Rotation = append(append([]proj.CropEntry{}, p.Rotation[:1]...), append([]proj.CropEntry{{Crop: "PH", Sow: "2001-08-20", Harvest: "2001-09-28", Rex: 0}}, p.Rotation[1:]...)...)
+	}
+	if sp.Env == 5 && abbrOfFile != "SM" {
+		p.Rotation = append(append([]proj.CropEntry{}, p.Rotation[:1]...), append([]proj.CropEntry{{Crop: "SM", Sow: "2001-08-20", Harvest: "2001-09-28", Rex: 0}}, p.Rotation[1:]...)...)
 	}
 	switch sp.Env {
 	case 1:
